@@ -161,6 +161,7 @@ class Facts:
         self.types = d["hir"]["types"]
         self.hir = d["hir"]["bodies"]
         self.skipped_non_src = d["hir"]["skipped_non_src"]
+        self.unsafe_non_src = d["hir"].get("unsafe_non_src", -1)
         self.mir = d["mir"]["bodies"]
         self.adts = {a["path"]: a for a in d["adts"]["adts"]}
         self.impls = d["adts"]["impls"]
